@@ -5,8 +5,8 @@ HERE = os.path.dirname(os.path.dirname(os.path.abspath(__file__)))
 ALL = ["C%02d" % i for i in range(1, 19)]
 GEN = (" Second tie (regenerated on every run): translate/py2coq.py translates tcp_signatures_match, calculate_window_multiplier, find_tcp_match, the "
        "TCPResult distance, round_frequency, guess_distance, should_fingerprint, the three valid_for_*_fingerprint gates, MTUPacketSignature.from_mss, impersonate/mtu.py's option-list rewrite, "
-       "mtu_signatures_match, find_mtu_match, find_http_match, http_signatures_match (with the two header_names sets), headers_match, HTTP.software, the dishonest flag and TCPOptions.parse (the option walker) from /repo's CURRENT source to Gallina (fail-closed "
-       "subset incl. for/while loops, early return, optional values), one generated file per group of functions (match / select / uptime / mtu / options / http), "
+       "mtu_signatures_match, find_mtu_match, find_http_match, http_signatures_match (with the two header_names sets), headers_match, HTTP.software, the dishonest flag, TCPOptions.parse (the option walker) and - translate/lay2coq.py - the whole extraction layer (IP._from_ipv4/_from_ipv6, TCP.from_packet, Packet.from_packet, TCPPacketSignature.from_packet over Scapy's fields) from /repo's CURRENT source to Gallina (fail-closed "
+       "subset incl. for/while loops, early return, optional values), one generated file per group of functions (match / select / uptime / mtu / options / http / layers), "
        "and coq/Gen/GenP_<group>.v (GenOptP.v, GenHdrP.v) prove the generated definitions equal to the hand-written models "
        "for all inputs, so for these functions the theorems are re-checked against what the code says now; a property only depends on its own groups.")
 GENIMP = (" Second tie (regenerated on every run): translate/imp2coq.py translates the five helpers of pyp0f/impersonate/tcp.py (_impersonate_ip, _impersonate_options, "
